@@ -29,7 +29,8 @@ def amf_cfg(cfg, strict=False):
     return dict(mcc=cfg["mcc"], mnc=cfg["mnc"], gnb_id=bytes(cfg["gnb_id"]), gnb_bitlength=cfg["gnb_bitlength"], gnb_name=cfg["gnb_name"],
                 k=cfg["k"], opc=cfg["opc"], gnb_gtp=cfg["gnb_gtp"], subscribers=subs, strict=strict,
                 sst=cfg.get("sst", 1), sd=cfg.get("sd", "010203"), **({"qos_lens": cfg["qos_lens"]} if "qos_lens" in cfg else {}),
-                **({"first_amf_id": cfg["first_amf_id"]} if "first_amf_id" in cfg else {}))
+                **({"first_amf_id": cfg["first_amf_id"]} if "first_amf_id" in cfg else {}),
+                **({"flow_desc_len": cfg["flow_desc_len"]} if "flow_desc_len" in cfg else {}))
 
 
 GARBAGE = b"\xff\xfe\xfd"
